@@ -5,4 +5,4 @@ Require Import ExtrOcamlBasic.
 From Coq Require Import ZArith List.
 From TS Require Import Base.F32 Model.RunC14 Model.RunC19 Model.RunPx Model.RunC18 Model.RunC17 Model.RunC02 Model.RunC03 Model.RunC06 Model.RunC07 Model.WideBackends Model.RunC15 Model.RunC16 Model.Tiler.
 Extraction Language OCaml.
-Extraction "model.ml" run_c14_builder run_c14_builder_pinned run_from_points run_c14_transform run_c19 run_px run_c18 run_c17 run_fill_spans run_line_edge run_quad_edge run_cubic_edge run_cubic_pin run_fill_px run_aruns run_aa_spans run_hair_spans run_hair_aa run_line_clip run_dash_new run_dash run_wide run_grad_new run_gather run_nearest_map run_tiles Z.add Z.mul Z.div_eucl Z.opp Z.compare.
+Extraction "model.ml" run_c14_builder run_c14_builder_pinned run_from_points run_c14_transform run_c19 run_px run_c18 run_c17 run_fill_spans run_line_edge run_quad_edge run_cubic_edge run_cubic_pin run_cubics_exact run_fill_px run_aruns run_aa_spans run_hair_spans run_hair_aa run_line_clip run_dash_new run_dash run_wide run_grad_new run_gather run_nearest_map run_tiles Z.add Z.mul Z.div_eucl Z.opp Z.compare.
